@@ -488,6 +488,7 @@ def run(ctx):
                  '</linearGradient><clipPath id="pre-pre-c"><rect width="9" height="9"/></clipPath>'
                  '<rect id="pre-" width="10" height="10" fill="url(#pre-g)" clip-path="url(#pre-pre-c)"/></svg>' % NS)
     forced = {len(wit) + len(extra) - 1: 'pre-'}
+    extra += refgen.crafted_docs()
     docs = ['@' + f for f in wit] + extra + ['@' + f for f in corpus] + gen_docs
     labels = [os.path.relpath(f, vlib.VERIF) for f in wit] + ['extra#%d' % i for i in range(len(extra))] + \
              [os.path.relpath(f, vlib.CORPUS) for f in corpus] + ['generated#%d' % i for i in range(ngen)]
